@@ -7,7 +7,7 @@ import itertools
 from ..core import Run, AnalysisError, loc_of
 from ..source import get_source
 from ..runtime import get_runtime
-from ..finite import Evaluator, AV, Unknown, AbsRaise, const_av, truth
+from ..finite import evaluator_for, Evaluator, AV, Unknown, AbsRaise, const_av, truth
 
 INFO = {
     'explanation': (
@@ -63,7 +63,7 @@ def r1_r4(run: Run, rt):
             def hook(ev, args, rec=rec):
                 rec.append(args)
                 return AV('bool')
-            ev = Evaluator(cp.members, hooks={'_by_operator': hook, '_normalize_float_number': _normaliser_hook})
+            ev = evaluator_for(cp, hooks={'_by_operator': hook, '_normalize_float_number': _normaliser_hook})
             construct = f'_compare[{cp.label}]({ka},{kb})'
             try:
                 ev.call_method('_compare', [const_av('=='), _with_origin(a, 'L'), _with_origin(b, 'R')])
@@ -271,8 +271,7 @@ def r2_eval(run: Run, rt, emitted: dict):
         for excel_op, py in sorted(emitted.items()):
             got = []
             for x, y in ((1, 2), (2, 2), (3, 2)):
-                ev = Evaluator(cp.members, hooks={'_normalize_float_number': _normaliser_hook}, max_depth=6)
-                ev.module_consts = module_consts_of(cp)
+                ev = evaluator_for(cp, hooks={'_normalize_float_number': _normaliser_hook}, max_depth=6)
                 try:
                     res = ev.call_method('_by_operator', [const_av(py), const_av(x), const_av(y)])
                 except Unknown as u:
